@@ -1,6 +1,9 @@
 (* C02 - Shares are conserved.  Statements only; proofs live in CGT.Proofs. *)
 From Coq Require Import QArith Qcanon ZArith List Bool Sorted.
 Require Import CGT.Model.Num CGT.Model.Match CGT.Proofs.MatchFacts CGT.Proofs.MatchInv CGT.Proofs.MatchUse CGT.Proofs.Examples.
+Require Import CGT.Model.Ledger CGT.Model.Agg CGT.Model.Report CGT.Model.Validate CGT.Proofs.ReportAdd CGT.Proofs.ValidWf.
+From Coq Require Import String.
+Open Scope Qc_scope.
 Import ListNotations.
 Open Scope Qc_scope.
 
@@ -46,6 +49,18 @@ Proof.
   intros w ds s Hwf Hs Hr e He Hb. unfold run in Hr. destruct (prepass false [] ds) as [er|offs]; [discriminate|].
   exact (mainpass_use w offs ds mst0 s Hwf Hs (Inv0 ds) Hr e He Hb).
 Qed.
+
+(* For EVERY ledger the standalone validator passes (no hypothesis on order, dates, securities or sizes) and every security of it that
+   the matcher accepts: the disposals are the sale days, their legs add up to the quantity sold, and the closing holding is
+   acquisitions less disposals rescaled by the later splits, never negative. *)
+Theorem C02_validated_ledgers : forall P l s st, has_errors (map t_op l) = false -> sr_res (eval_tick P l s) = inr st ->
+  Forall2 (fun (x : Z * list leg) (d : day) => fst x = dt d /\ legs_qty (snd x) = sq d) (m_disp st) (filter hassell (days_of_tick l s)) /\
+  m_pq st = holding_sum (days_of_tick l s) /\ 0 <= m_pq st.
+Proof.
+  intros P l s st Hv Hr. destruct (validated_days l s Hv) as [W S]. unfold eval_tick in Hr. cbn [sr_res] in Hr.
+  split; [exact (run_legs_sum _ _ _ W S Hr)|exact (run_closing_holding _ _ _ W S Hr)].
+Qed.
+Print Assumptions C02_validated_ledgers.
 
 (* non-vacuity: a ledger with a same-day leg, a 30-day leg across a split and pool legs meets the hypotheses *)
 Example C02_witness : wf_days ex1 /\ sorted_days ex1 /\
